@@ -182,10 +182,16 @@ extern "C" void quill_verif_point(int id, void const* p)
   if (!lt) return;
   if (id == 5)
   {
+    // the clock was just read by this thread: under the token scheduler the value is the current virtual time
+    if (lt != &g_backend) { Ev e{"Ts"}; e.s("t", lt->name).u("now", vs::g_vunits.load()); }
     if (lt->yield_ts) vs::park("ts");
     return;
   }
-  if (id == 7) return;
+  if (id == 7)
+  {
+    if (lt != &g_backend) { Ev e{"Commit"}; e.s("t", lt->name).u("now", vs::g_vunits.load()); }
+    return;
+  }
   if (lt == &g_backend && lt->fine)
   {
     static char const* names[] = {"?", "POP_CTX", "BATCH_ITER", "IDLE", "POPPED", "TS", "RFAIL", "COMMIT", "PROC"};
@@ -419,6 +425,11 @@ static void report_state(vs::LT* lt, vs::LT::St st)
 
 static void backend_op(std::string const& op)
 {
+  if (op != "go")
+  {
+    // a fine-grained poll left parked part-way is completed before a new backend operation starts
+    while (g_backend.st == vs::LT::PARKED) { g_backend.fine = false; vs::drive(&g_backend); }
+  }
   if (op == "poll" || op == "pollf")
   {
     g_backend.fine = (op == "pollf");
@@ -435,10 +446,10 @@ static void backend_op(std::string const& op)
     g_backend.fine = false;
     auto st = vs::drive(&g_backend, [] {
       int guard = 0;
-      while (!g_mbw->_backend_worker->_check_frontend_queues_and_cached_transit_events_empty() && ++guard < 100000)
+      while (!g_mbw->_backend_worker->_check_frontend_queues_and_cached_transit_events_empty() && ++guard < 3000)
         g_mbw->poll_one();
       g_mbw->poll_one();
-      if (guard >= 100000) { Ev e{"DrainStuck"}; }
+      if (guard >= 3000) { Ev e{"DrainStuck"}; }
     });
     (void)st;
   }
@@ -520,14 +531,13 @@ static int run_script(std::istream& in)
       if (!geti(a, "nohold", 0)) g_sinks[tok[1]] = s;
       else { g_sinks[tok[1]] = s; }
       Ev e{"SinkCreated"};
-      e.s("s", tok[1]).b("same", s.get() == g_sinks[tok[1]].get());
+      e.s("s", tok[1]).b("same", s.get() == g_sinks[tok[1]].get()).i("lvl", geti(a, "lvl", 0)).s("tw", gets(a, "tw")).s("tf", gets(a, "tf"));
     }
     else if (c == "dropsink")
     {
       // the user gives up its own reference to the sink
+      { Ev e{"SinkRefDropped"}; e.s("s", tok[1]); }
       g_sinks.erase(tok[1]);
-      Ev e{"SinkRefDropped"};
-      e.s("s", tok[1]);
     }
     else if (c == "logger")
     {
@@ -557,7 +567,8 @@ static int run_script(std::istream& in)
       bool same = g_loggers.count(tok[1]) && g_loggers[tok[1]] == lg;
       g_loggers[tok[1]] = lg;
       Ev e{"LoggerCreated"};
-      e.s("lg", tok[1]).b("fresh", fresh).b("same", same).s("sinks", gets(a, "sinks")).i("nsinks", static_cast<long long>(lg->get_sinks().size()));
+      e.s("lg", tok[1]).b("fresh", fresh).b("same", same).s("sinks", gets(a, "sinks")).i("nsinks", static_cast<long long>(lg->get_sinks().size()))
+        .i("lvl", static_cast<int>(lg->get_log_level())).s("clock", clk);
     }
     else if (c == "getlogger")
     {
@@ -620,7 +631,7 @@ static int run_script(std::istream& in)
     else if (c == "join")
     {
       vs::LT* lt = thread_of(tok[1]);
-      if (lt->st != vs::LT::IDLE) vs::die("join of a busy thread");
+      if (lt->st != vs::LT::IDLE) { Ev e{"Skipped"}; e.s("what", "join").s("t", tok[1]); continue; }
       vs::quit_and_join(lt);
       Ev e{"ThreadExit"};
       e.s("t", tok[1]);
@@ -638,11 +649,20 @@ static int run_script(std::istream& in)
       vs::LT::St st;
       if (op == "go")
       {
+        if (lt->st != vs::LT::PARKED) continue;
         st = vs::drive(lt);
       }
       else
       {
-        if (lt->st != vs::LT::IDLE) vs::die("op on a busy thread");
+        if (lt->st == vs::LT::DONE) { Ev e{"Skipped"}; e.s("what", op).s("t", tok[1]); continue; }
+        if (lt->st != vs::LT::IDLE)
+        {
+          // the thread is still inside an earlier (blocked) call: resume it instead of starting a new operation
+          { Ev e{"Skipped"}; e.s("what", op).s("t", tok[1]); }
+          st = vs::drive(lt);
+          report_state(lt, st);
+          continue;
+        }
         if (op == "log")
         {
           VLogger* lg = logger_of(tok[3]);
